@@ -413,11 +413,18 @@ messageTypeSwitching:
 	return nil
 }
 
-// reqMsgIDOf returns the id of the request which is answered by msg (if msg is rpc_result), cause hints for
-// the decoder are stored under id of the request, not under id of the server's message. For any other
-// message it returns 0, there are no hints under this id.
+// reqMsgIDOf returns the id of the request which is answered by msg (if msg is rpc_result, maybe packed
+// into gzip_packed), cause hints for the decoder are stored under id of the request, not under id of the
+// server's message. For any other message it returns 0, there are no hints under this id.
 func reqMsgIDOf(msg messages.Common) int {
 	body := msg.GetMsg()
+	if len(body) >= tl.WordLen && binary.LittleEndian.Uint32(body) == objects.CrcGzipPacked {
+		unpacked, err := objects.UnpackGzipPacked(body)
+		if err != nil {
+			return 0
+		}
+		body = unpacked
+	}
 	if len(body) < tl.WordLen+tl.LongLen || binary.LittleEndian.Uint32(body) != objects.CrcRpcResult {
 		return 0
 	}
